@@ -103,6 +103,8 @@ def boundary_cases(rng, thorough):
                     "1/(%s^%s %s)" % (u, k, u), "sqrt(%s^%s)" % (u, k), "(%s^%s)^(1|2)" % (u, k), "%s^%s + 1" % (u, k), "%s^%s -> %s" % (u, k, u),
                     "%s^%s %s^%s / %s^%s" % (u, k, u, k, u, k), "(%s^%s)^-1 %s^%s" % (u, k, u, k), "factorize %s^%s" % (u, k), "units for %s^%s" % (u, k),
                     "1 -> %s^%s" % (u, k), "hypot(%s^%s, %s^%s)" % (u, k, u, k), "(%s^%s) mod (%s^%s)" % (u, k, u, k)]
+    # exact results of tens of thousands of digits (class expensive: they may be stopped, but must not abort)
+    out += ["mile^10000", "1/mile^10000", "(355|113)^20000", "furlong^8000", "mile^10000 -> m^10000", "inch^30000", "(1|3937)^9000 -> digits 20"]
     # factorize: moderately complex dimensionalities (complexity score 8..16); exponential search shows from about 12
     named = ["J^2", "J^3", "(m/s)^5", "ohm", "ohm^2", "kg m^2 / s^3 A^2", "W N", "farad henry", "tesla^2", "m^6 / s^6", "kg^2 m^2 / s^5 K", "gray sievert / s"]
     out += ["factorize " + n for n in named]
